@@ -87,6 +87,13 @@ def main(chk: core.Check) -> int:
     for (w, m), r, kd in zip(bufs, nat, kinds):
         chk.count(1, key=(None if kd == "well-formed" else hash((tuple(w), m))))
         chk.hist("native_outcome", r["class"])
+        if r["class"] == "timeout":
+            # the time limit covers the whole batch of buffers in one process: confirm the hang on this buffer alone before calling it one
+            # (a loaded machine must not turn into a verdict)
+            r2 = native.run_raw_buffers([(w, m)], quiet=False, timeout=120)[0]
+            if r2["class"] != "timeout":
+                chk.hist("native_outcome", "slow-batch-not-a-hang")
+                r = r2
         if r["class"] in ("oob", "timeout"):
             small = shrink(w, m)
             chk.failing_input("raw parser (native ASan/UBSan build of the working tree)", {"words": [hex(x) for x in small], "n_words": len(small), "sel_mask": m, "kind": kd},
